@@ -3,7 +3,7 @@
 import json, sys
 CHECKS = {
  "C14": dict(
-   text="The amd64 assembly of GF(2^255-19) (add, sub, mul, sqr, modp, cmov, cswap) and GF(2^448-2^224-1) (add, sub, addsub, mul, cmov, cswap), and the mulA24 routines of the X25519/X448 ladders, in both the legacy MULQ/ADCQ and the MULX/ADCX/ADOX variants selected by the CPU-feature byte, are executed symbolically from the assembler's own macro-expanded listing (go tool asm -S, regenerated from /repo on every run) and decided to meet the same contract as the portable Go bodies for every operand: congruent results mod p, modp bit-identical, cmov/cswap bit-identical; counterexamples are replayed natively against the real assembly with the feature byte forced. Default-build-only Go logic of P-384 (identity test of affine points, IsOnCurve comparison) is analysed under the default amd64 tags with the Montgomery kernels uninterpreted; multi-lane KangarooTwelve equals the specification.",
+   text="The amd64 assembly of GF(2^255-19) (add, sub, mul, sqr, modp, cmov, cswap) and GF(2^448-2^224-1) (add, sub, addsub, mul, cmov, cswap), and the mulA24 routines of the X25519/X448 ladders, in both the legacy MULQ/ADCQ and the MULX/ADCX/ADOX variants selected by the CPU-feature byte, are executed symbolically from the assembler's own macro-expanded listing (go tool asm -S, regenerated from /repo on every run) and decided to meet the same contract as the portable Go bodies for every operand: congruent results mod p, modp bit-identical, cmov/cswap bit-identical; counterexamples are replayed natively against the real assembly with the feature byte forced. Default-build-only Go logic of P-384 (identity test of affine points, IsOnCurve comparison) is analysed under the default amd64 tags with the Montgomery kernels uninterpreted; multi-lane KangarooTwelve equals the specification. FourQ portable field kernels meet the reduced-output contract the assembly assumes.",
    note="Integer amd64 kernels only; fp448 squarings are attempted but unknown (tier=deep, not claimed); ladderStep/diffAdd/double, fourq, p384, csidh, sidh assembly, all AVX2/NEON code and arm64 are not covered; bit-identity of whole-primitive outputs across builds follows only for operations that canonicalise (ToBytes/Modp/IsZero).",
    ref="§4 C14"),
  "C18": dict(
@@ -11,11 +11,11 @@ CHECKS = {
    note="Hash function is an uninterpreted function of its input bytes; toy moduli so that every byte is symbolic; RSA exponentiation, blinding algebra and the partially-blind key derivation are not covered (metadata aliasing of the latter is decided under C11).",
    ref="§4 C18"),
  "C20": dict(
-   text="Access-structure level of CP-ABE decided by SMT: for every formula given by arbitrary gate tuples (class/in0/in1/out symbolic; 1 gate quick, 2 gates thorough) and every set of available input wires, Formula.satisfaction succeeds only on well-formed trees that evaluate to true, returns only available wires which by themselves satisfy the tree, and accepts every satisfiable well-formed tree.",
+   text="Access-structure level of CP-ABE decided by SMT: for every formula given by arbitrary gate tuples (class/in0/in1/out symbolic; 1 gate quick, 2 gates thorough) and every set of available input wires, Formula.satisfaction succeeds only on well-formed trees that evaluate to true, returns only available wires which by themselves satisfy the tree, and accepts every satisfiable well-formed tree. Leaf rule of Policy.Satisfaction (positive/negated x present/absent x equal/different x wild).",
    note="Pairing-based encapsulation/decapsulation algebra and the policy-language parser are not covered; larger formulas outside the bound.",
    ref="§4 C20"),
  "C16": dict(
-   text="DLEQ proofs (zk/dleq) over an abstract group whose scalars are SMT reals: honest proofs verify for every key / randomness / batch (1, 2), altered components are refused unless the transcript hash collides; zk/qndleq: honest proof verifies and degenerate proofs are refused for every challenge value; OPRF Finalize hash input equals the RFC 9497 framing byte for byte (recorder hash) for every mode and input/info/element incl. empty info; NIST-curve scalar decoding is canonical (known finding: values >= N accepted).",
+   text="DLEQ proofs (zk/dleq) over an abstract group whose scalars are SMT reals: honest proofs verify for every key / randomness / batch (1, 2), altered components are refused unless the transcript hash collides; zk/qndleq: honest proof verifies and degenerate proofs are refused for every challenge value; OPRF Finalize hash input equals the RFC 9497 framing byte for byte (recorder hash) for every mode and input/info/element incl. empty info; NIST-curve scalar decoding is canonical (known finding: values >= N accepted). OPRF finalisation does not modify the stored blinds (finalising twice gives the same outputs).",
    note="Hash, hash-to-scalar and element encoding are uninterpreted functions; qndleq with a concrete 64-bit modulus; OPRF blinding algebra, Schnorr (zk/dl) and OT are not covered; two known findings are listed in known_findings.json (qndleq security parameter taken from the proof; non-canonical P-curve scalars).",
    ref="§4 C16"),
  "C17": dict(
@@ -31,11 +31,11 @@ CHECKS = {
    note="Square roots, on-curve and subgroup tests are free values / uninterpreted (their mathematics is outside the technique); BLS field range check itself, FourQ point sign rule, NIST-curve and ristretto decoders not covered.",
    ref="§4 C09"),
  "C11": dict(
-   text="Histories: decode-into-used = decode-into-fresh (csidh keys, Goldilocks scalars, tss/rsa key shares, oprf private keys), operands unchanged (csidh DeriveSecret, Goldilocks scalar multiplications, partially-blind-RSA metadata buffer), P-curve Generator() independent of earlier results. Schedules: two goroutines, thread A suspended after each of its first 30 stores in turn, B runs to completion, A resumes, with sync.Mutex/Once modelled and a happens-before race detector: first Public()/PublicKey() of hpke X25519/X448, BLS, oprf keys, tss/rsa cached exponent vs MarshalBinary, marshalling a shared P-curve element.",
+   text="Histories: decode-into-used = decode-into-fresh (csidh keys, Goldilocks scalars, tss/rsa key shares, oprf private keys), operands unchanged (csidh DeriveSecret, Goldilocks scalar multiplications, partially-blind-RSA metadata buffer), P-curve Generator() independent of earlier results. Schedules: two goroutines, thread A suspended after each of its first 30 stores in turn, B runs to completion, A resumes, with sync.Mutex/Once modelled and a happens-before race detector: first Public()/PublicKey() of hpke X25519/X448, BLS, oprf keys, tss/rsa cached exponent vs MarshalBinary, marshalling a shared P-curve element. RFC 9380 expanders leave the backing array of the domain-separation tag untouched (tag = window of a larger buffer).",
    note="One preemption, two threads, store granularity; accesses inside intercepted library intrinsics are not tracked by the race detector; group data of the P-curve harnesses is concrete (math/big on symbolic values is out of reach); scalar multiplications are uninterpreted.",
    ref="§4 C11"),
  "C15": dict(
-   text="KeccakF1600 (24 and 12 rounds) equals a FIPS 202 reference for an arbitrary state; sponge Write/Read step lemmas from an arbitrary absorbing state; KangarooTwelve equals the RFC 9861 tree-hash specification (transcribed over TurboSHAKE128) for padded lengths around the 8192-byte chunk boundary and around the rate, with and without customisation, and is independent of write splits and cloning; expand_message_xof equals RFC 9380 5.3.2 incl. the over-long DST rule and aborts above 65535 bytes.",
+   text="KeccakF1600 (24 and 12 rounds) equals a FIPS 202 reference for an arbitrary state; sponge Write/Read step lemmas from an arbitrary absorbing state; KangarooTwelve equals the RFC 9861 tree-hash specification (transcribed over TurboSHAKE128) for padded lengths around the 8192-byte chunk boundary and around the rate, with and without customisation, and is independent of write splits and cloning; expand_message_xof equals RFC 9380 5.3.2 incl. the over-long DST rule and aborts above 65535 bytes. K12: a state Reset midway (past the first chunk, squeezed or not) hashes like a fresh one.",
    note="Permutation is an uninterpreted function above the permutation level (equalities hold by AC-normalised term identity or SMT); Ascon, BLAKE2X, expand_message_xmd, multi-lane K12 and SIMD permutations not covered.",
    ref="§4 C15"),
  "C13": dict(
@@ -43,7 +43,7 @@ CHECKS = {
    note="Deliberately narrow: group law, exceptional cases, pairings and hash-to-curve are outside the technique.",
    ref="§4 C13"),
  "C19": dict(
-   text="Prio3 decided for all parameter values / inputs: constructors of Sum (all 2^64 bounds), SumVec, Histogram, MultihotCountVec; Histogram measurement validation (refused iff >= length, one-hot otherwise, every 64-bit measurement); InvUint64 = Inv(SetUint64(x)) for every x (fp64, fp128) and the inverse table; field equality tests; PrepNext releases the output share iff the message carries the corrected joint-randomness seed (symbolic seeds).",
+   text="Prio3 decided for all parameter values / inputs: constructors of Sum (all 2^64 bounds), SumVec, Histogram, MultihotCountVec; Histogram measurement validation (refused iff >= length, one-hot otherwise, every 64-bit measurement); InvUint64 = Inv(SetUint64(x)) for every x (fp64, fp128) and the inverse table; field equality tests; PrepNext releases the output share iff the message carries the corrected joint-randomness seed (symbolic seeds). Field-element range check isInRange = integer comparison with p for every string (fp64, fp128); gadget calls = ceil(measurement length / chunk length) for Histogram, SumVec, MultihotCountVec; PrepSharesToPrep refuses every share count other than the number of aggregators.",
    note="Vector length bounds per harness; FLP circuits, sharding and end-to-end aggregates are not covered.",
    ref="§4 C19"),
  "C05": dict(
@@ -71,7 +71,7 @@ CHECKS = {
    note="Decides the kernels and codecs only (not end-to-end bytes for all seeds, which needs SHAKE over symbolic data); generic (purego) code paths; AVX2 back-ends outside; go/ssa and executor semantics trusted.",
    ref="§4 C03"),
  "C08": dict(
-   text="Bounded symbolic model checking of the real hpke Seal/Open/increment/calcNonce code: one step from an arbitrary 96-bit sequence number and base nonce (all values symbolic) decided by z3/cvc5; induction over the step covers histories of any length.",
+   text="Bounded symbolic model checking of the real hpke Seal/Open/increment/calcNonce code: one step from an arbitrary 96-bit sequence number and base nonce (all values symbolic) decided by z3/cvc5; induction over the step covers histories of any length. A Seal or Open that fails at the maximum sequence number leaves the counter at the maximum.",
    note="AEAD modelled as uninterpreted function with free success flag; Nn=12; plaintext lengths 0..2; go/ssa (x/tools v0.29.0) and the executor's instruction semantics are trusted; purego build tags.",
    ref="§4 C08"),
  "C10": dict(
@@ -79,7 +79,7 @@ CHECKS = {
    note="Input lengths bounded per harness; field arithmetic below decoders is uninterpreted.",
    ref="§4 C10"),
  "C12": dict(
-   text="For GF(2^255-19) and GF(2^448-2^224-1): add, sub, neg, addsub, mul, sqr, red64, modp, IsZero/IsOne, ToBytes, cmov, cswap of the real generic code, and the amd64 assembly mul/sqr (fp25519) and mul (fp448), congruent/canonical for every byte string via linear-integer carry equations; Goldilocks scalars (Red, IsZero, Add, Sub, Neg, FromBytes <= 64 bytes, word lemmas); fp64/fp128 add, sub, equality, fp64 mul.",
+   text="For GF(2^255-19) and GF(2^448-2^224-1): add, sub, neg, addsub, mul, sqr, red64, modp, IsZero/IsOne, ToBytes, cmov, cswap of the real generic code, and the amd64 assembly mul/sqr (fp25519) and mul (fp448), congruent/canonical for every byte string via linear-integer carry equations; Goldilocks scalars (Red, IsZero, Add, Sub, Neg, FromBytes <= 64 bytes, word lemmas); fp64/fp128 add, sub, equality, fp64 mul. FourQ portable GF(2^127-1) add/sub/mul: congruent and below 2^127 for all operands.",
    note="64x64 partial products are shared bounded integers (sound for unsat; counterexamples concretised when possible); Montgomery multiplications (BLS12-381, fp128, CSIDH, P-384), FourQ and goldilocks full scalar Mul are not decided (the latter is tier=deep).",
    ref="§4 C12"),
 }
